@@ -403,6 +403,10 @@ struct Outcome {
     uses_stamp: bool,
     uses_zero: bool,
     header_damaged: bool,
+    /// the first damaged frame is self-consistent (its stored CRC-32 matches its stored data)
+    /// without being an all-zero block: no checksum can tell it from an appended entry, the
+    /// property cannot demand its rejection -> the comparison of this file is skipped, counted
+    forged: bool,
 }
 
 /// Expected recovery of one file whose bytes were `f.bytes` and now are `mutd`.
@@ -434,11 +438,17 @@ fn expect_file(all: &[E], f: &FileImg, mutd: &[u8]) -> Outcome {
             }
         }
     }
-    if mutd.len() >= stop && zero_blocks(mutd, stop) > 0 {
-        uses_zero = true;
-        tolerant.extend(ref_decode(mutd, stop));
+    let mut forged = false;
+    if mutd.len() >= stop {
+        if zero_blocks(mutd, stop) > 0 {
+            uses_zero = true;
+            tolerant.extend(ref_decode(mutd, stop));
+        } else if !ref_decode(mutd, stop).is_empty() {
+            forged = true;
+        }
     }
     Outcome {
+        forged,
         strict,
         tolerant: if uses_stamp || uses_zero { Some(tolerant) } else { None },
         uses_stamp,
@@ -492,6 +502,10 @@ fn check_mutation(
         at += l.len();
     }
     let mid = &got[n_before..got.len() - n_after];
+    if exp.forged {
+        ctx.abstain();
+        return Ok(());
+    }
     if mid == &all[..exp.strict] {
         return Ok(());
     }
@@ -932,7 +946,7 @@ fn main() {
     );
     s.assume("crash/corruption model: a mutation changes the bytes of one file (or removes/swaps whole files); the store itself reads back exactly the bytes it holds");
     s.assume("entry payloads are non-empty (bincode of a ReplicationDelta is never empty; WalEntry::from_delta states it as a postcondition)");
-    s.assume("an accidental CRC-32 collision of a re-framed window (probability 2^-32 per mutation) would be reported as a violation");
+    s.assume("corruption is not a forgery: a mutation after which the first damaged frame is self-consistent (stored CRC-32 = CRC-32 of the stored data, e.g. payload ff ff ff ff with crc ffffffff) is indistinguishable from an appended entry for any checksum; such mutations are skipped and counted as abstained. All-zero blocks are NOT skipped (KF-C10-02)");
 
     s.probe(
         KF_STAMP,
@@ -982,13 +996,13 @@ fn main() {
         "images",
         "per generated image every truncation length, header bit, sampled (thorough: every) payload bit, zero fill, tail, overwrite, deletion and swap; recovered list compared with the exact intact prefix",
     );
-    s.run_cases("images", s.scale(2_000, 40_000), image_case, check_image);
+    s.run_cases("images", s.scale(8_000, 60_000), image_case, check_image);
 
     s.describe_check(
         "truncate",
         "truncate_before(T) for every distinct stamp, 0 and max+1, on the writing rotator and on a fresh one: active file kept, no file with a stamp > T deleted, surviving files recover completely, log still appendable",
     );
-    s.run_cases("truncate", s.scale(3_000, 100_000), image_case, check_truncate);
+    s.run_cases("truncate", s.scale(20_000, 400_000), image_case, check_truncate);
 
     s.describe_check(
         "entries_after",
@@ -996,7 +1010,7 @@ fn main() {
     );
     s.run_cases(
         "entries_after",
-        s.scale(2_000, 50_000),
+        s.scale(10_000, 200_000),
         || {
             (
                 proptest::collection::vec((delta_payload(), stamp(), prop::bool::weighted(0.15)), 0..=12),
